@@ -1,0 +1,104 @@
+//go:build verif
+
+package document
+
+// Contracts for gvc (contract-based deductive verification, see /verif/DESIGN.md).
+// This file contains comments only; it is compiled only under the build tag "verif"
+// and has no effect on the package.
+
+// ---------------------------------------------------------------- C02: trust verdict gating
+//
+// The predicates are taken from the property statement: a mechanism is named only when that
+// protocol succeeded AND passive authentication succeeded (for PACE-CAM additionally only when
+// the card security object itself was authenticated); data is trusted only when passive
+// authentication succeeded and the completeness check passed.
+//
+//@ pred paOK(s Session) { s.PassiveAuthResult != nil && s.PassiveAuthResult.Success }
+//@ pred aaOK(s Session) { s.ActiveAuthResult != nil && s.ActiveAuthResult.Success }
+//@ pred camOK(s Session) { s.PaceCamResult != nil && s.PaceCamResult.Success }
+//@ pred caOK(s Session) { s.ChipAuthResult != nil && s.ChipAuthResult.Success }
+//@ pred cardSecOK(s Session) { s.PassiveAuthResult != nil && s.PassiveAuthResult.CardSec != nil }
+//@ spec func protoStatus(s Session) int { aaOK(s) ? 3 : (camOK(s) ? 1 : (caOK(s) ? 2 : 0)) }
+//@ spec func verifiedStatus(s Session) int {
+//@     !paOK(s) ? 0 : ((protoStatus(s) == 1 && !cardSecOK(s)) ? 0 : protoStatus(s)) }
+
+//@ func (session Session) ChipAuthProtocolStatus
+//@   props C02
+//@   ensures "aa":   status == 3 <==> aaOK(session)
+//@   ensures "cam":  status == 1 <==> (!aaOK(session) && camOK(session))
+//@   ensures "ca":   status == 2 <==> (!aaOK(session) && !camOK(session) && caOK(session))
+//@   ensures "range": status == 0 || status == 1 || status == 2 || status == 3
+//@   pure
+//@   safety all
+
+//@ func (session Session) ChipAuthProtocolCompleted
+//@   props C02
+//@   ensures result <==> (aaOK(session) || camOK(session) || caOK(session))
+//@   pure
+//@   safety all
+
+//@ func (session Session) VerifiedChipAuthStatus
+//@   props C02
+//@   ensures "gated-on-pa":      result != 0 ==> paOK(session)
+//@   ensures "aa-only-if-aa":    result == 3 ==> aaOK(session)
+//@   ensures "ca-only-if-ca":    result == 2 ==> caOK(session)
+//@   ensures "cam-only-if-cam-and-cardsec": result == 1 ==> camOK(session) && cardSecOK(session)
+//@   ensures "range":            result == 0 || result == 1 || result == 2 || result == 3
+//@   ensures "names-mechanism":  result == verifiedStatus(session)
+//@   pure
+//@   safety all
+
+//@ func (docEx *DocumentEx) Summary
+//@   props C02
+//@   requires docEx != nil
+//@   ensures "fresh": result != nil && fresh(result)
+//@   ensures "data-trusted": result.DataTrusted <==> (docEx.Session.DocumentVerifyErr == nil && paOK(docEx.Session))
+//@   ensures "chip-authenticity": result.ChipAuthenticity == verifiedStatus(docEx.Session)
+//@   ensures "chip-authentic-needs-pa": result.ChipAuthenticity != 0 ==> paOK(docEx.Session)
+//@   safety nil
+
+// Completeness check (stripped DG14/DG15, CardAccess subset of DG14).
+//@ pred hasHash(sod SOD, n int) {
+//@     sod.LdsSecurityObject != nil &&
+//@     (exists i :: 0 <= i && i < len(sod.LdsSecurityObject.DataGroupHashValues)
+//@         && sod.LdsSecurityObject.DataGroupHashValues[i].DataGroupNumber == n
+//@         && len(sod.LdsSecurityObject.DataGroupHashValues[i].DataGroupHashValue) > 0
+//@         && (forall j :: 0 <= j && j < i ==> sod.LdsSecurityObject.DataGroupHashValues[j].DataGroupNumber != n)) }
+
+//@ func (sod SOD) DgHash
+//@   props C02 C01
+//@   ensures "found-iff": len(result) > 0 <==> hasHash(sod, dgNumber)
+//@   ensures fresh(result)
+//@   loop 1 invariant sod.LdsSecurityObject != nil
+//@   loop 1 invariant forall j :: 0 <= j && j <= rangeindex ==> sod.LdsSecurityObject.DataGroupHashValues[j].DataGroupNumber != dgNumber
+//@   assigns nothing
+//@   safety all
+
+//@ func (sod SOD) HasDgHash
+//@   props C02
+//@   ensures result <==> hasHash(sod, dgNumber)
+//@   assigns nothing
+//@   safety all
+
+// Contains is the boundary to encoding/asn1: its acceptance is named by an uninterpreted
+// predicate over the two raw SecurityInfos encodings.
+//@ uf secInfosSubset(seq, seq) bool
+//@ func (secInfos *SecurityInfos) Contains
+//@   props C02
+//@   trusted
+//@   requires secInfos != nil && subsetSecInfos != nil
+//@   ensures result == nil ==> secInfosSubset(subsetSecInfos.RawData, secInfos.RawData)
+//@   assigns nothing
+
+//@ func (doc *Document) Verify
+//@   props C02
+//@   requires doc != nil
+//@   requires doc.Mf.Lds1.Dg14 != nil ==> doc.Mf.Lds1.Dg14.SecInfos != nil
+//@   requires doc.Mf.CardAccess != nil ==> doc.Mf.CardAccess.SecurityInfos != nil
+//@   ensures "mandatory": result == nil ==> doc.Mf.Lds1.Dg1 != nil && doc.Mf.Lds1.Sod != nil
+//@   ensures "dg14-not-stripped": result == nil && hasHash(doc.Mf.Lds1.Sod, 14) ==> doc.Mf.Lds1.Dg14 != nil
+//@   ensures "dg15-not-stripped": result == nil && hasHash(doc.Mf.Lds1.Sod, 15) ==> doc.Mf.Lds1.Dg15 != nil
+//@   ensures "cardaccess-in-dg14": result == nil && doc.Mf.CardAccess != nil && doc.Mf.Lds1.Dg14 != nil ==>
+//@              secInfosSubset(doc.Mf.CardAccess.SecurityInfos.RawData, doc.Mf.Lds1.Dg14.SecInfos.RawData)
+//@   assigns nothing
+//@   safety all
